@@ -51,7 +51,9 @@ c.ensure("ncwb.complete", lambda cx, result, self: S.forall_int(lambda q: z3.Imp
         # every wildcard bit position is listed in wb_idxs (comprehension completeness)
         lambda cx, result, v, self: S.forall_int(lambda q: z3.Implies(z3.And(0 <= q, q < 32, BIT(S._t(cx.get(self, "_wildmask")), q)),
                                                                        S.mem_term(v.wb_idxs, q))),
-        # the tail wb_idxs[k:] is what ncwb lists (reversed)
+        # the tail wb_idxs[k:] is what ncwb lists (reversed): first with the position named (the witness the membership below needs), then as membership
+        lambda cx, result, v, self: z3.And(result[0].n == v.wb_idxs.n - S._t(v.prefixlen_idx), S.forall(S._t(v.prefixlen_idx), v.wb_idxs.n, lambda i: z3.And(
+            0 <= v.wb_idxs.n - 1 - i, v.wb_idxs.n - 1 - i < result[0].n, S.at(result[0], v.wb_idxs.n - 1 - i) == S.at(v.wb_idxs, i)))),
         lambda cx, result, v, self: S.forall(S._t(v.prefixlen_idx), v.wb_idxs.n, lambda i: S.mem_term(result[0], S.at(v.wb_idxs, i))),
         # the head wb_idxs[:k] is 0..k-1
         lambda cx, result, v, self: S.forall(0, S._t(v.prefixlen_idx), lambda i: S.at(v.wb_idxs, i) == i),
